@@ -73,7 +73,11 @@ func (d *DebugDialer) Dial(ctx context.Context, urlstr string) (conn net.Conn, b
 		// We must split response inside buffered bytes from other received
 		// bytes from server.
 		p := resBuf.Bytes()
-		h := headLen(p)                // Head end index.
+		h := headEnd(p) // Head end index.
+		if h < 0 {
+			// The response was cut short, or never arrived.
+			h = len(p)
+		}
 		n := h + int(resContentLength) // Body end index.
 
 		onResponse(p[:n])
@@ -124,11 +128,11 @@ func (rwc rwConn) Write(p []byte) (int, error) {
 	return rwc.w.Write(p)
 }
 
-// headLen returns the length of the HTTP message head that p begins with,
-// including the empty line that ends it. Lines may end with CRLF or with a
-// bare LF, as ws.Dialer accepts both. If p holds no complete head (the
-// response was cut short, or never arrived), it returns len(p).
-func headLen(p []byte) int {
+// headEnd returns the length of the HTTP message head that p begins with,
+// including the empty line that ends it, or -1 if p holds no complete head.
+// Lines may end with CRLF or with a bare LF, as ws.Dialer and ws.Upgrader
+// accept both.
+func headEnd(p []byte) int {
 	for i := 0; i < len(p); i++ {
 		if p[i] != '\n' {
 			continue
@@ -141,7 +145,7 @@ func headLen(p []byte) int {
 			return j + 1
 		}
 	}
-	return len(p)
+	return -1
 }
 
 type prefetchResponseReader struct {
